@@ -222,6 +222,15 @@ func (b *Builder) And(xs ...*Term) *Term {
 	case 1:
 		return out[0]
 	}
+	for _, x := range out {
+		if x.Op == ONot {
+			for _, y := range out {
+				if y == x.Args[0] {
+					return b.False
+				}
+			}
+		}
+	}
 	return b.mk(&Term{Op: OAnd, Sort: Bool, Args: out})
 }
 
@@ -249,6 +258,15 @@ func (b *Builder) Or(xs ...*Term) *Term {
 		return b.False
 	case 1:
 		return out[0]
+	}
+	for _, x := range out {
+		if x.Op == ONot {
+			for _, y := range out {
+				if y == x.Args[0] {
+					return b.True
+				}
+			}
+		}
 	}
 	return b.mk(&Term{Op: OOr, Sort: Bool, Args: out})
 }
@@ -571,6 +589,63 @@ func (b *Builder) FBin(op Op, x, y *Term) *Term {
 	return b.mk(&Term{Op: op, Sort: FP64, Args: []*Term{x, y}})
 }
 
+// BitsOf returns the IEEE bit pattern of a float term when the term is a
+// reinterpretation of bits (constants, to_fp of a bit-vector, ite of those).
+func (b *Builder) BitsOf(t *Term) (*Term, bool) {
+	switch t.Op {
+	case OConst:
+		return b.BVConst(t.V, 64), true
+	case OFFromBits:
+		return t.Args[0], true
+	case OIte:
+		x, ok1 := b.BitsOf(t.Args[1])
+		y, ok2 := b.BitsOf(t.Args[2])
+		if ok1 && ok2 {
+			return b.Ite(t.Args[0], x, y), true
+		}
+	case OFNeg:
+		if x, ok := b.BitsOf(t.Args[0]); ok {
+			return b.BVBin(OBXor, x, b.BVConst(1<<63, 64)), true
+		}
+	case OFAbs:
+		if x, ok := b.BitsOf(t.Args[0]); ok {
+			return b.BVBin(OBAnd, x, b.BVConst(1<<63-1, 64)), true
+		}
+	}
+	return nil, false
+}
+
+func (b *Builder) bvNaN(a *Term) *Term {
+	mag := b.BVBin(OBAnd, a, b.BVConst(1<<63-1, 64))
+	return b.BVCmp(OULT, b.BVConst(0x7ff0000000000000, 64), mag)
+}
+
+func (b *Builder) bvZero(a *Term) *Term {
+	return b.Eq(b.BVBin(OBAnd, a, b.BVConst(1<<63-1, 64)), b.BVConst(0, 64))
+}
+
+// bvKey maps sign-magnitude bits to a value whose signed order is the float order.
+func (b *Builder) bvKey(a *Term) *Term {
+	m := b.BVBin(OLShr, b.BVBin(OAShr, a, b.BVConst(63, 64)), b.BVConst(1, 64))
+	return b.BVBin(OBXor, a, m)
+}
+
+// fcmpBits encodes the comparison of two bit-backed floats in pure bit-vector logic.
+func (b *Builder) fcmpBits(op Op, x, y *Term) *Term {
+	ok := b.And(b.Not(b.bvNaN(x)), b.Not(b.bvNaN(y)))
+	bothZero := b.And(b.bvZero(x), b.bvZero(y))
+	eq := b.And(ok, b.Or(b.Eq(x, y), bothZero))
+	lt := b.And(ok, b.Not(bothZero), b.BVCmp(OSLT, b.bvKey(x), b.bvKey(y)))
+	switch op {
+	case OFEq:
+		return eq
+	case OFLT:
+		return lt
+	default:
+		return b.Or(lt, eq)
+	}
+}
+
 func (b *Builder) FCmp(op Op, x, y *Term) *Term {
 	if x.IsConst() && y.IsConst() {
 		a, c := fval(x), fval(y)
@@ -581,6 +656,19 @@ func (b *Builder) FCmp(op Op, x, y *Term) *Term {
 			return b.BoolConst(a <= c)
 		case OFEq:
 			return b.BoolConst(a == c)
+		}
+	}
+	if x == y {
+		switch op {
+		case OFLT:
+			return b.False
+		case OFLE, OFEq:
+			return b.Not(b.FIsNaN(x))
+		}
+	}
+	if bx, ok := b.BitsOf(x); ok {
+		if by, ok := b.BitsOf(y); ok {
+			return b.fcmpBits(op, bx, by)
 		}
 	}
 	return b.mk(&Term{Op: op, Sort: Bool, Args: []*Term{x, y}})
@@ -601,6 +689,9 @@ func (b *Builder) FAbs(x *Term) *Term {
 func (b *Builder) FIsNaN(x *Term) *Term {
 	if x.IsConst() {
 		return b.BoolConst(math.IsNaN(fval(x)))
+	}
+	if bx, ok := b.BitsOf(x); ok {
+		return b.bvNaN(bx)
 	}
 	return b.mk(&Term{Op: OFIsNaN, Sort: Bool, Args: []*Term{x}})
 }
